@@ -287,8 +287,15 @@ func partitionKey(topic string, partition int32) string {
 	return fmt.Sprintf("%s:%d", topic, partition)
 }
 
+// consumerKeyEscaper keeps the ':'-separated consumer offset key unambiguous when a group or
+// topic name itself contains ':' (group "a:b"/topic "c" must not share a key with group "a"/topic "b:c").
+var (
+	consumerKeyEscaper   = strings.NewReplacer("%", "%25", ":", "%3A")
+	consumerKeyUnescaper = strings.NewReplacer("%3A", ":", "%25", "%")
+)
+
 func consumerKey(group, topic string, partition int32) string {
-	return fmt.Sprintf("%s:%s:%d", group, topic, partition)
+	return fmt.Sprintf("%s:%s:%d", consumerKeyEscaper.Replace(group), consumerKeyEscaper.Replace(topic), partition)
 }
 
 // maxTopicNameLength is Kafka's limit on topic name length.
@@ -584,7 +591,7 @@ func parseConsumerKey(key string) (string, string, int32, bool) {
 	if err != nil {
 		return "", "", 0, false
 	}
-	return parts[0], parts[1], int32(partition), true
+	return consumerKeyUnescaper.Replace(parts[0]), consumerKeyUnescaper.Replace(parts[1]), int32(partition), true
 }
 
 // PutConsumerGroup implements Store.PutConsumerGroup.
